@@ -141,6 +141,15 @@ ALPHABET = {
     'vcv_cart2local_view': lambda: (gs.vcv_cart2local, [np.asfortranarray(A(V33)), -33.5, 151.2]),
     'vcv_cart2local_p2': lambda: (gs.vcv_cart2local, [A(V33), -33.5, 151.2]),
     'mga2020_to_mga94_vcv_p2': lambda: (gt.transform_mga2020_to_mga94, [55, 300000.0, 6200000.0, 10.0, A(V31)]),
+    # --- objects DERIVED from constants passed on to further calls (a re-epoched / negated set owns its own uncertainties:
+    # using it must not change it, and the constant it came from must stay untouched)
+    'conform14_derived': lambda: (gt.conform14, [X, Y, Z, D85, gc.itrf2008_to_gda94 + D30, A(V33)]),
+    'conform14_derived_neg': lambda: (gt.conform14, [X, Y, Z, D85, -(gc.itrf2005_to_gda94 + D30), A(V33)]),
+    'conform7_derived': lambda: (gt.conform7, [X, Y, Z, gc.atrf2014_to_gda2020 + D85, A(V33)]),
+    'add_date_derived': lambda: ((lambda t, d: t + d), [gc.itrf2008_to_gda94 + D30, D85]),
+    'derived_chain': lambda: ((lambda t, d1, d2, v: (lambda t1: (gt.conform14(X, Y, Z, d2, t1, v), gt.conform14(X, Y, Z, d2, -t1, v),
+                                                             gt.conform7(X, Y, Z, t1, v), gt.conform14(X, Y, Z, d2, t1, v)))(t + d1)),
+                              [gc.itrf2000_to_gda94, D30, D85, A(V33)]),
     'precise_inst_ht_sorted': lambda: (gsv.precise_inst_ht, [[92.0, 91.0, 90.0, 89.0], 0.5, 0.1]),
 }
 NAMES = sorted(ALPHABET)
